@@ -101,7 +101,7 @@ def net_initialization_multinet(multinet, ctrl_variables, **kwargs):
     :return: as the ctrl_variables are adapted they are returned
     :rtype: dict
     """
-    ctrl_variables['converged'] = False
+    ctrl_variables['converged'] = True
 
     for net_name in multinet['nets'].keys():
         net = multinet['nets'][net_name]
@@ -109,7 +109,7 @@ def net_initialization_multinet(multinet, ctrl_variables, **kwargs):
         kwargs['only_v_results'] = ctrl_variables['nets'][net_name]['only_v_results']
         ctrl_variables['nets'][net_name] = net_initialization(
             net, ctrl_variables['nets'][net_name], **kwargs)
-        ctrl_variables['converged'] = max(ctrl_variables['converged'],
+        ctrl_variables['converged'] = min(ctrl_variables['converged'],
                                           ctrl_variables['nets'][net_name]['converged'])
     return ctrl_variables
 
